@@ -241,12 +241,12 @@ func (tds *Conn) ReadFrom() {
 		tdsChan.WritePacket(packet)
 
 		// err from packet.ReadFrom
-		// The server closing the connection is only expected after it
-		// confirmed the termination. In any other case continue to read,
-		// the closed connection will be reported as an error.
-		if errors.Is(err, io.EOF) && packet.Header.MsgType == TDS_BUF_CLOSE {
-			return
-		}
+		// The packet was complete although the connection ended with
+		// its last bytes. Continue to read - the closed connection is
+		// reported as an error by the next read, whatever the type of
+		// the last packet was, so that consumers of all channels learn
+		// about it. The goroutine ends when the connection's context is
+		// cancelled.
 	}
 }
 
